@@ -191,13 +191,15 @@ fn layout(t: Tier) -> Layout {
         n_edge: SITES.len() * EDGE_MAX,
         n_budget: SITES.len(),
         n_uniform: t.pick(500, 25000),
-        n_observe: SITES.len() + 1 + 2 + C14_PAR,
+        n_observe: SITES.len() + 1 + 2 + c14_par(t),
     }
 }
 
-const C14_PAR: usize = 24;
+fn c14_par(t: Tier) -> usize {
+    t.pick(24, 240)
+}
 pub fn isolated_c14(t: Tier, i: usize) -> bool {
-    i >= runs_c14(t) - C14_PAR && i % 2 == 0
+    i >= runs_c14(t) - c14_par(t) && i % 2 == 0
 }
 
 /// Two simulated caller threads draw from the REAL generator at once (worker process of its own):
